@@ -234,9 +234,66 @@ def r3(rep, mod, f):
     i_xsort = next((k for k, s in enumerate(body) if s.startswith(K("xpoint.sort("))), None)
     rep.ob("R3", "the primary O-point is chosen before it is used to order the X-points", None not in (i_sort, i_axis, i_xsort) and i_sort < i_axis < i_xsort, f.site(), "", key="order/sequence")
     dup = mod.funcs.get("find_critical.remove_dup")
-    thr = [n for n in ast.walk(dup.node) if isinstance(n, ast.If) and isinstance(n.test, ast.Compare) and len(n.test.ops) == 1 and isinstance(n.test.ops[0], (ast.Lt, ast.LtE))
-           and T(mod, n.test.left) == K("(p[0]-p2[0])**2+(p[1]-p2[1])**2") and isinstance(n.test.comparators[0], ast.Constant)
-           and isinstance(n.test.comparators[0].value, float) and 0 < n.test.comparators[0].value < 1e-2] if dup is not None else []
+    # one closeness test |a - b|^2 < small, with a walking the candidates and b the points kept so
+    # far (as an `if` in a loop over the kept list, or inside any(...) over it); a is appended
+    import re as _re
+    from ..model import as_less
+    thr = []
+    if dup is not None:
+        for n in ast.walk(dup.node):
+            less = as_less(n)
+            if not (less and isinstance(less[2], ast.Constant) and isinstance(less[2].value, float) and 0 < less[2].value < 1e-2):
+                continue
+            m = _re.fullmatch(r"\((\w+)\[0\]-(\w+)\[0\]\)\*\*2\+\(\1\[1\]-\2\[1\]\)\*\*2", T(mod, less[0]))
+            if not m:
+                continue
+            a, b = m.group(1), m.group(2)
+            iters = {}
+            for x in ast.walk(dup.node):
+                if isinstance(x, (ast.For, ast.comprehension)):
+                    # `for n, p in enumerate(points)` binds p to the elements of points
+                    tgt, it = x.target, x.iter
+                    if isinstance(it, ast.Call) and T(mod, it.func) == "enumerate" and isinstance(tgt, ast.Tuple) and len(tgt.elts) == 2:
+                        tgt, it = tgt.elts[1], it.args[0]
+                    if isinstance(tgt, ast.Name):
+                        iters[tgt.id] = T(mod, it)
+            kept = [x.func.value.id for x in ast.walk(dup.node) if isinstance(x, ast.Call) and isinstance(x.func, ast.Attribute) and x.func.attr == "append"
+                    and isinstance(x.func.value, ast.Name) and len(x.args) == 1 and T(mod, x.args[0]) == a]
+            params = [p_.arg for p_ in dup.node.args.args]
+            if not (len(kept) == 1 and iters.get(b) == kept[0] and iters.get(a) in params and any(isinstance(r, ast.Return) and r.value is not None and T(mod, r.value) == kept[0] for r in ast.walk(dup.node))):
+                continue
+            # the candidate is a duplicate when ANY kept point is close: the test is the element of
+            # any(... for b in kept), or the test of an `if` in the loop over kept that can only
+            # raise a flag (flag = True; the flag is lowered before the loop and nowhere in it)
+            parent = {}
+            for x in ast.walk(dup.node):
+                for ch in ast.iter_child_nodes(x):
+                    parent[ch] = x
+            up = parent.get(n)
+            quant = False
+            if isinstance(up, (ast.GeneratorExp, ast.ListComp)) and up.elt is n:
+                call = parent.get(up)
+                quant = isinstance(call, ast.Call) and T(mod, call.func) in ("any", "numpy.any") and call.args and call.args[0] is up
+                if quant:
+                    # ... and the candidate is appended exactly when that any(...) is false
+                    from ..model import inline_temporaries
+                    want = K("not " + ast.unparse(call))
+                    quant = any(isinstance(st, ast.If) and T(mod, inline_temporaries(dup.node, st.test, inline_calls=True)) == want and not st.orelse
+                                and any(isinstance(c, ast.Call) and T(mod, c) == K("%s.append(%s)" % (kept[0], a)) for c in ast.walk(st)) for st in ast.walk(dup.node))
+            elif isinstance(up, ast.If) and up.test is n:
+                loop = parent.get(up)
+                flags = [st.targets[0].id for st in up.body if isinstance(st, ast.Assign) and isinstance(st.targets[0], ast.Name) and isinstance(st.value, ast.Constant) and st.value.value is True]
+                if isinstance(loop, ast.For) and isinstance(loop.target, ast.Name) and loop.target.id == b and len(flags) == 1 and not up.orelse:
+                    fl = flags[0]
+                    inside = [st for st in ast.walk(loop) if isinstance(st, (ast.Assign, ast.AugAssign)) and any(isinstance(t_, ast.Name) and t_.id == fl for t_ in (st.targets if isinstance(st, ast.Assign) else [st.target]))]
+                    outer = parent.get(loop)
+                    blk = getattr(outer, "body", [])
+                    k = blk.index(loop) if loop in blk else -1
+                    lowered = k > 0 and isinstance(blk[k - 1], ast.Assign) and T(mod, blk[k - 1]) == K("%s = False" % fl)
+                    guarded = any(isinstance(st, ast.If) and T(mod, st.test) == K("not %s" % fl) and any(isinstance(c, ast.Call) and T(mod, c) == K("%s.append(%s)" % (kept[0], a)) for c in ast.walk(st)) for st in blk[k + 1:])
+                    quant = len(inside) == 1 and lowered and guarded
+            if quant:
+                thr.append(n)
     ok = dup is not None and len(thr) == 1 and K("xpoint=remove_dup(xpoint)") in src and K("opoint=remove_dup(opoint)") in src
     rep.ob("R3", "duplicates (closer than the threshold in R-Z) are removed from both lists, keeping the first", ok, f.site(), "", key="dedup")
     rets = [n for n in walk_own(f.node) if isinstance(n, ast.Return)]
